@@ -37,6 +37,17 @@ CLAIMS = {
        "= flat-scan model, and compare the hook-recorded isEmpty decisions with the model traversal (drift only).",
   design_ref="DESIGN.md section 6 C07", technique="TLC model checking of the traversal + replay into the real renderers + TLC trace validation (metamorphic and model-based)",
   note=TB + " Scenes are 1-Lipschitz by construction; 'all shapes' is the stated lattice families."),
+ "C11": dict(
+  text="Pipeline.tla models buffer, lock, unbuffered channel, writer goroutine and caller action by action; TLC checks "
+       "sequence conservation, no aliasing of a sent slice, the at-return count, append-only delivery and termination for "
+       "1-3 producers and every batch size around the threshold over all interleavings, and enumerates every complete "
+       "schedule with the code's real thresholds (read from the tree). Each schedule is replayed into the real "
+       "Triangle3Buffer/Line2Buffer, channel and writer with the verif hooks as a scheduler gate, into the in-memory "
+       "collector and the STL/3MF/DXF/SVG writers; the item sequence read back by independent readers is judged by "
+       "PipeRunTrace.tla, and hook-event logs of free-running and gated runs are validated step by step against "
+       "Pipeline.tla (PipelineTrace.tla).",
+  design_ref="DESIGN.md section 6 C11", technique="TLC exhaustive model checking of the pipeline + schedule replay with a hook-based scheduler gate + TLC trace validation of real event logs",
+  note=TB + " Schedules are exhaustive for the stated producer counts/batch sizes; larger runs are covered by event-trace validation only."),
 }
 
 NOT_APPLICABLE = {}
